@@ -5,7 +5,7 @@ import Nstd.Avl.Model
   Containers: 0 = Map<Key,int>, 1 = MultiMap<Key,int>, 2 = a second Map<Key,int>.
     reset | dom <lo> <hi> | obs <0|1|2>
     <c> ins k v | insat p k v | rmkey k | rmat p | rmfront | rmback | clear
-    <c> find k | has k | count k | front | back | nop | assign <src> | insall <src>
+    <c> find k | has k | count k | front | back | nop | wb | assign <src> | insall <src>
   Observation of the container touched, one line per op:
     <ret> c=<key comparisons of the op> n=<size> [| k:v k:v ...] [| p/c p/c ...]
   the last part lists, for every key of the domain, the position `find` returns (e = end) and
@@ -41,6 +41,11 @@ def obs (w : World) (s : St) (o : Out) : String :=
         " " ++ (match s.findIdx k with | some p => toString p | none => "e") ++ "/" ++ toString (s.findCmps k)))
     else ""
   base ++ it ++ fs
+
+/-- white-box rendering of the tree with the stored fields: `(left key:height:slope right)` -/
+def render : Tree → String
+  | .nil => "."
+  | .node _ k _ h s l r => s!"({render l} {k}:{h}:{s} {render r})"
 
 def parseOp : List String → Option Op
   | ["ins", k, v] => do pure (.insert (← k.toInt?) (← v.toInt?))
@@ -79,6 +84,7 @@ def stepLine (w : World) (ws : List String) : World × String :=
       | some s =>
         match rest with
         | ["nop"] => (w, obs w s ⟨.none, 0⟩)
+        | ["wb"] => (w, render s.t)
         | [op, src] =>
           if op = "assign" ∨ op = "insall" then
             match src.toNat? with
